@@ -295,6 +295,15 @@ func hostileValues() []string {
 			add(a[1:])
 		}
 	}
+	// every printable ASCII character, and every pair of upper-case letters
+	for ch := byte(32); ch < 127; ch++ {
+		add(string([]byte{ch}))
+	}
+	for a := byte('A'); a <= 'Z'; a++ {
+		for b := byte('A'); b <= 'Z'; b++ {
+			add(string([]byte{a, b}))
+		}
+	}
 	for _, s := range []string{"", " ", ":", "/", "x", "nd", "Nd", "CLEAR", "clear", "Clea", "Reds", "0", "1", "\xff", "\x00", "None", "High", "Low"} {
 		add(s)
 	}
